@@ -222,7 +222,10 @@ func main() {
 						for _, ie := range o.ies {
 							v := gen.Abs(r, ie, 20)
 							nonEmpty := false
-							for _, b := range v {
+							for q, b := range v {
+								if q == 0 && (ie.DataType == entities.Float32 || ie.DataType == entities.Float64) {
+									b &= 0x7f // the sign alone does not make a float non-zero: -0.0 counts as empty
+								}
 								if b != 0 {
 									nonEmpty = true
 								}
